@@ -81,18 +81,21 @@ Definition check (s : sx) : Z :=
       | _, _, _, _ => code_decode_error
       end
   (* ---- NewDesc + NewConstMetric + Write ---- *)
-  | SL [SZ 1; ds; SZ vt; v; impl] =>
+  | SL [SZ 1; SZ variant; ds; SZ vt; v; impl] =>
       match d_dspec ds, dF v with
       | Some x, Some v =>
-          let acceptable := dspec_ok_spec x && in_rng 1 3 vt in
-          let mo := new_const_metric (ds_desc x) vt v (ds_lvs x) in
+          (* variant: 0 New, 1 Must, 2 NewWithCreatedTimestamp, 3 MustNewWithCreatedTimestamp *)
+          let is_ct := 2 <=? variant in
+          let acceptable := dspec_ok_spec x && (if is_ct then vt =? 1 else in_rng 1 3 vt) in
+          let mo := if is_ct then new_const_metric_ct (ds_desc x) vt v (ds_lvs x)
+                    else new_const_metric (ds_desc x) vt v (ds_lvs x) in
           match impl with
           | SL [SZ 0; SZ code] =>
               both (negb acceptable) (match mo with Err e => err_code e =? code | Ok _ => false end)
-          | SL [SZ 1; labels; SZ ivt; iv] =>
+          | SL [SZ 1; labels; SZ ivt; iv; SZ ctok] =>
               match dLP labels, dF iv with
               | Some labels, Some iv =>
-                  both (acceptable && labels_ok_spec x labels && (ivt =? vt) && fbits_eq iv v)
+                  both (acceptable && labels_ok_spec x labels && (ivt =? vt) && fbits_eq iv v && (ctok =? 1))
                        (match mo with
                         | Ok o => lps_eqb (so_labels o) labels && (so_type o =? ivt) && fbits_eq (so_value o) iv
                         | Err _ => false end)
@@ -130,17 +133,17 @@ Definition check (s : sx) : Z :=
       | _, _, _, _, _, _, _ => code_decode_error
       end
   (* ---- NewConstHistogram ---- *)
-  | SL [SZ 3; ds; SZ count; sum; buckets; impl] =>
+  | SL [SZ 3; SZ _; ds; SZ count; sum; buckets; impl] =>
       match d_dspec ds, dF sum, dFZ buckets with
       | Some x, Some sum, Some buckets =>
           let acceptable := dspec_ok_spec x in
           let mo := new_const_histogram (ds_desc x) count sum buckets (ds_lvs x) in
           match impl with
           | SL [SZ 0; SZ code] => both (negb acceptable) (match mo with Err e => err_code e =? code | Ok _ => false end)
-          | SL [SZ 1; labels; SZ icount; isum; ibk] =>
+          | SL [SZ 1; labels; SZ icount; isum; ibk; SZ ctok] =>
               match dLP labels, dF isum, dFZ ibk with
               | Some labels, Some isum, Some ibk =>
-                  both (acceptable && labels_ok_spec x labels && (icount =? count) && fbits_eq isum sum && buckets_spec buckets ibk)
+                  both (acceptable && labels_ok_spec x labels && (icount =? count) && fbits_eq isum sum && buckets_spec buckets ibk && (ctok =? 1))
                        (match mo with
                         | Ok o => lps_eqb (ho_labels o) labels && (ho_count o =? icount) && fbits_eq (ho_sum o) isum &&
                                   list_eqb fz_eqb (ho_buckets o) ibk
@@ -152,17 +155,17 @@ Definition check (s : sx) : Z :=
       | _, _, _ => code_decode_error
       end
   (* ---- NewConstSummary ---- *)
-  | SL [SZ 4; ds; SZ count; sum; qs; impl] =>
+  | SL [SZ 4; SZ _; ds; SZ count; sum; qs; impl] =>
       match d_dspec ds, dF sum, dFF qs with
       | Some x, Some sum, Some qs =>
           let acceptable := dspec_ok_spec x in
           let mo := new_const_summary (ds_desc x) count sum qs (ds_lvs x) in
           match impl with
           | SL [SZ 0; SZ code] => both (negb acceptable) (match mo with Err e => err_code e =? code | Ok _ => false end)
-          | SL [SZ 1; labels; SZ icount; isum; iqs] =>
+          | SL [SZ 1; labels; SZ icount; isum; iqs; SZ ctok] =>
               match dLP labels, dF isum, dFF iqs with
               | Some labels, Some isum, Some iqs =>
-                  both (acceptable && labels_ok_spec x labels && (icount =? count) && fbits_eq isum sum && quantiles_spec qs iqs)
+                  both (acceptable && labels_ok_spec x labels && (icount =? count) && fbits_eq isum sum && quantiles_spec qs iqs && (ctok =? 1))
                        (match mo with
                         | Ok o => lps_eqb (su_labels o) labels && (su_count o =? icount) && fbits_eq (su_sum o) isum &&
                                   list_eqb ff_eqb (su_quantiles o) iqs
@@ -174,7 +177,7 @@ Definition check (s : sx) : Z :=
       | _, _, _ => code_decode_error
       end
   (* ---- NewConstNativeHistogram ---- *)
-  | SL [SZ 5; ds; SZ count; sum; pos; neg; SZ zero; SZ schema; zt; impl] =>
+  | SL [SZ 5; SZ _; ds; SZ count; sum; pos; neg; SZ zero; SZ schema; zt; impl] =>
       match d_dspec ds, dF sum, dZZ pos, dZZ neg, dF zt with
       | Some x, Some sum, Some pos, Some neg, Some zt =>
           let acceptable := dspec_ok_spec x && in_rng schema_min schema_max schema &&
@@ -207,7 +210,7 @@ Definition check (s : sx) : Z :=
       | None => code_decode_error
       end
   (* ---- NewMetricWithExemplars over a const counter / gauge / untyped ---- *)
-  | SL [SZ 7; SZ vt; v; exs; impl] =>
+  | SL [SZ 7; SZ _; SZ vt; v; exs; impl] =>
       match dF v, dExIn exs with
       | Some v, Some exs =>
           let acceptable := exs_ok_spec exs && (vt =? 1) in
@@ -229,7 +232,7 @@ Definition check (s : sx) : Z :=
       | _, _ => code_decode_error
       end
   (* ---- NewMetricWithExemplars over a const (native) histogram ---- *)
-  | SL [SZ 8; SZ count; buckets; exs; impl] =>
+  | SL [SZ 8; SZ _; SZ count; buckets; exs; impl] =>
       match dFZ buckets, dExIn exs with
       | Some buckets, Some exs =>
           let acceptable := exs_ok_spec exs in
@@ -277,10 +280,11 @@ Definition explain (s : sx) : sx :=
       | Some ns, Some sub, Some name => SL [eStr (build_fq_name ns sub name); eStr (fq_spec ns sub name)]
       | _, _, _ => SL []
       end
-  | SL [SZ 1; ds; SZ vt; v; _] =>
+  | SL [SZ 1; SZ variant; ds; SZ vt; v; _] =>
       match d_dspec ds, dF v with
       | Some x, Some v =>
-          SL [eRes (fun o => SL [eLP (so_labels o); SZ (so_type o); eF (so_value o)]) (new_const_metric (ds_desc x) vt v (ds_lvs x));
+          SL [eRes (fun o => SL [eLP (so_labels o); SZ (so_type o); eF (so_value o)])
+                   (if 2 <=? variant then new_const_metric_ct (ds_desc x) vt v (ds_lvs x) else new_const_metric (ds_desc x) vt v (ds_lvs x));
               eB (dspec_ok_spec x)]
       | _, _ => SL []
       end
@@ -295,21 +299,21 @@ Definition explain (s : sx) : sx :=
           end
       | _, _, _, _, _, _, _ => SL []
       end
-  | SL [SZ 3; ds; SZ count; sum; buckets; _] =>
+  | SL [SZ 3; SZ _; ds; SZ count; sum; buckets; _] =>
       match d_dspec ds, dF sum, dFZ buckets with
       | Some x, Some sum, Some buckets =>
           SL [eRes (fun o => SL [eLP (ho_labels o); eL (fun p => SL [eF (fst p); SZ (snd p)]) (ho_buckets o)])
                    (new_const_histogram (ds_desc x) count sum buckets (ds_lvs x)); eB (dspec_ok_spec x)]
       | _, _, _ => SL []
       end
-  | SL [SZ 4; ds; SZ count; sum; qs; _] =>
+  | SL [SZ 4; SZ _; ds; SZ count; sum; qs; _] =>
       match d_dspec ds, dF sum, dFF qs with
       | Some x, Some sum, Some qs =>
           SL [eRes (fun o => SL [eLP (su_labels o); eL (fun p => SL [eF (fst p); eF (snd p)]) (su_quantiles o)])
                    (new_const_summary (ds_desc x) count sum qs (ds_lvs x)); eB (dspec_ok_spec x)]
       | _, _, _ => SL []
       end
-  | SL [SZ 5; ds; SZ count; sum; pos; neg; SZ zero; SZ schema; zt; _] =>
+  | SL [SZ 5; SZ _; ds; SZ count; sum; pos; neg; SZ zero; SZ schema; zt; _] =>
       match d_dspec ds, dF sum, dZZ pos, dZZ neg, dF zt with
       | Some x, Some sum, Some pos, Some neg, Some zt =>
           SL [eRes (fun o => SL [eLP (no_labels o); eZZ (no_pos_spans o); eL SZ (no_pos_deltas o); eZZ (no_neg_spans o); eL SZ (no_neg_deltas o);
@@ -320,12 +324,12 @@ Definition explain (s : sx) : sx :=
       | _, _, _, _, _ => SL []
       end
   | SL [SZ 6; SZ sec; SZ nsec; _; _] => SL [SZ (timestamp_ms sec nsec); SZ (timestamp_spec sec nsec)]
-  | SL [SZ 7; SZ vt; v; exs; _] =>
+  | SL [SZ 7; SZ _; SZ vt; v; exs; _] =>
       match dF v, dExIn exs with
       | Some v, Some exs => SL [eRes ePayload (new_metric_with_exemplars (if vt =? 1 then PCounter v None else POther) exs); eB (exs_ok_spec exs)]
       | _, _ => SL []
       end
-  | SL [SZ 8; SZ count; buckets; exs; _] =>
+  | SL [SZ 8; SZ _; SZ count; buckets; exs; _] =>
       match dFZ buckets, dExIn exs with
       | Some buckets, Some exs =>
           let sorted := map (fun p => mkBucket (fst p) (snd p) None) (sort_by fpair_lt buckets) in
